@@ -237,6 +237,44 @@ func (c *c18) encCase(fx encFix, kind, cls string, v []byte) {
 			}
 			lit := s[5 : len(s)-1]
 			r.Text = lit
+			// the wrappers themselves, appending to buffers of every awkward capacity behind a prefix: too small buffers make
+			// them grow and resume (an escape-dense string several times within one value); the text must not depend on the
+			// capacity and is judged like the converter's
+			wlit := ""
+			for k, cp := range []int{0, 1, 7, len(v) / 2, len(v), len(v) + 2, 2*len(v) + 3} {
+				buf := append(make([]byte, 0, cp+3), "k=:"...)
+				switch kind {
+				case "i64":
+					buf = conv.VerifEncodeInt64(buf, fromBE8(v))
+				case "f64":
+					buf = conv.VerifEncodeFloat64(buf, math.Float64frombits(uint64(fromBE8(v))))
+				case "str":
+					buf = conv.VerifEncodeString(buf, string(v))
+				}
+				if !strings.HasPrefix(string(buf), "k=:") || (k > 0 && string(buf[3:]) != wlit) {
+					r.Text = fmt.Sprintf("wrapper(cap=%d): prefix lost or text depends on the capacity", cp)
+					return
+				}
+				wlit = string(buf[3:])
+			}
+			okw := false
+			switch kind {
+			case "i64":
+				okw = wlit == strconv.FormatInt(fromBE8(v), 10)
+			case "f64":
+				f, perr := strconv.ParseFloat(wlit, 64)
+				okw = perr == nil && math.Float64bits(f) == uint64(fromBE8(v)) && json.Valid([]byte(wlit))
+			case "str":
+				var back string
+				okw = json.Unmarshal([]byte(wlit), &back) == nil && back == string(v)
+			}
+			if !okw {
+				r.Text = "wrapper text: " + wlit
+				if len(r.Text) > 80 {
+					r.Text = r.Text[:80]
+				}
+				return
+			}
 			switch kind {
 			case "i64":
 				r.Same = lit == strconv.FormatInt(fromBE8(v), 10)
@@ -376,8 +414,11 @@ func c18Main(args map[string]string) {
 		lens := []int{0, 1, 15, 16, 17, 31, 32, 33, 47, 48, 63, 64, 65, ps - 1, ps, ps + 1, 100 + r.Intn(200)}
 		n := lens[r.Intn(len(lens))]
 		var sb strings.Builder
+		dense := r.Intn(6) == 0 // dominated by control bytes: every byte becomes a 6-byte escape
 		for sb.Len() < n {
-			if r.Intn(4) == 0 {
+			if dense && r.Intn(8) != 0 {
+				sb.WriteByte(byte(r.Intn(32)))
+			} else if r.Intn(4) == 0 {
 				sb.WriteString(alpha[r.Intn(len(alpha))])
 			} else {
 				sb.WriteByte(byte('a' + r.Intn(26)))
